@@ -46,6 +46,12 @@ func (s *ProcPluginService) NewProcessor(ctx context.Context, pluginName string,
 	if sys == nil {
 		return nil, cerrors.Errorf("sim: unknown processor %q", id)
 	}
+	if s.w.direct {
+		s.w.procNewCount++
+		if s.w.procNewFailAt > 0 && s.w.procNewCount == s.w.procNewFailAt {
+			return nil, errProcNew
+		}
+	}
 	d := s.w.park(ctx, "proc.new", id, s.inc, nil, "plugin.err")
 	if d.fault != "" {
 		return nil, faultErr(ctx, d, "new-processor", id)
